@@ -890,7 +890,8 @@ class FTPFS(FS):
                 try:
                     self.ftp.sendcmd(cmd)
                 except error_perm:
-                    pass
+                    if not self.exists(path):
+                        raise errors.ResourceNotFound(path)
         else:
             if not self.exists(path):
                 raise errors.ResourceNotFound(path)
